@@ -2,8 +2,12 @@
 #![allow(clippy::all)]
 #![allow(dead_code)]
 
+mod authjudge;
+mod awssig;
 mod common;
 mod props;
+mod sigref;
+mod svc;
 
 use common::*;
 
@@ -48,6 +52,12 @@ fn main() {
         std::process::exit(2)
     };
 
+    if std::env::var_os("VERIF_DEBUG").is_none() {
+        std::panic::set_hook(Box::new(|_| {}));
+    }
+    if let Err(e) = sigref::self_validate() {
+        machinery_failure(&format!("reference signer failed its documentation vectors: {e}"));
+    }
     // panics inside the code under test are caught where the property says so; anything else is a machinery failure
     let replay = replay_file.map(|f| {
         let txt = std::fs::read_to_string(&f).unwrap_or_else(|e| machinery_failure(&format!("cannot read {f}: {e}")));
